@@ -416,10 +416,9 @@ Proof.
   pose proof (final_entries_bufs pol hts gis 0) as Lb.
   pose proof (sum_sizes_nonneg pol hts gis 0) as Ls.
   pose proof (zlen_nonneg table) as Ht0. unfold nvar_guid_size in *.
-  rewrite Lb.
-  rewrite (Z.mod_small (s_len s - 16 * zlen table)) by lia.
-  rewrite Z.mod_small by lia.
-  replace (2 ^ 47 <=? s_len s - 16 * zlen table - sum_list (map v_size (final_entries enc16 pol hts gis 0)))
+  rewrite Lb. cbv zeta.
+  replace ((s_len s <? 16 * zlen table) ||
+           (s_len s - 16 * zlen table <? sum_list (map v_size (final_entries enc16 pol hts gis 0))))
     with false by lia.
   reflexivity.
 Qed.
